@@ -70,6 +70,9 @@ HARNESSES = {
     "rtimes3n":  dict(pipe="timed", mode="product", rtimes=[[1.0], [2.0], [4.0]], steps=1, seed=5, hooks=True),
     "files2x3":  dict(pipe="det", mode="product", a=[1, 2], b=[10, 20, 30], steps=1, seed=None, hooks=False, outputs=True),
     "files3x2":  dict(pipe="det", mode="product", a=[1, 2, 3], b=[10, 20], steps=1, seed=None, hooks=False, outputs=True),
+    # two swept arguments with the same short name ('a' of two models) around a uniquely named one
+    "collide":   dict(pipe="collide", mode="product", a=[1, 2], b=[10, 20], c=[5, 6], steps=1, seed=None, hooks=False),
+    "collideS":  dict(pipe="collide", mode="sequential", a=[1, 2], b=[10, 20], c=[5, 6], steps=1, seed=None, hooks=False),
 }
 
 
@@ -119,6 +122,11 @@ def build(h, with_dask, tmp):
     elif h["pipe"] == "modelseed":
         groups = {"charge_collection": [("props.c07_parallel.noisy_modelseed", "nz", {"a": 0.0, "seed": 7})]}
         ka, kb = "pipeline.charge_collection.nz.arguments.a", "pipeline.charge_collection.nz.arguments.seed"
+    elif h["pipe"] == "collide":
+        groups = {"photon_collection": [("vp.cprobes.enc", "p1", {"slot": 0, "a": 0.25, "b": 0.5, "v": [1.0]})],
+                  "charge_generation": [("vp.cprobes.enc", "p2", {"slot": 1, "a": 0.75, "b": 0.5, "v": [2.0]})]}
+        ka, kb = "pipeline.photon_collection.p1.arguments.a", "pipeline.photon_collection.p1.arguments.b"
+        kc = "pipeline.charge_generation.p2.arguments.a"
     elif h["pipe"] == "timed":
         groups = {"charge_collection": [("props.c07_parallel.timed", "tm", {"a": 3.0 + s, "noise": h["seed"] is not None})]}
         ka = kb = None
@@ -138,6 +146,8 @@ def build(h, with_dask, tmp):
         params.append(ParameterValues(key=ka, values=[x + s for x in h["a"]]))
         if "b" in h:
             params.append(ParameterValues(key=kb, values=[x + s for x in h["b"]]))
+        if "c" in h:
+            params.append(ParameterValues(key=kc, values=[x + s for x in h["c"]]))
     outputs = None
     if h.get("outputs"):
         outputs = ObservationOutputs(output_folder=os.path.join(tmp, "out_par" if with_dask else "out_seq"),
@@ -336,12 +346,13 @@ def plan(tier):
         return [("det3", 2, 1), ("det2x2", 2, 1), ("state3", 2, 1), ("seq", 2, 1), ("custom3", 2, 1),
                 ("noisy3", 2, 1), ("noisy2", 2, 2), ("mseed3", 2, 1), ("files3", 2, 1),
                 ("atomic4", 4, 0), ("atomicn3", 3, 0), ("atomicf3", 3, 0), ("det3", 1, 0), ("det3", 3, 1),
-                ("files2x3", 2, 0), ("files3x2", 3, 0), ("rtimes3", 2, 1), ("rtimes3n", 3, 1)]
+                ("files2x3", 2, 0), ("files3x2", 3, 0), ("rtimes3", 2, 1), ("rtimes3n", 3, 1), ("collide", 2, 0),
+                ("collideS", 2, 0)]
     return [("det3", 2, 2), ("det2x2", 2, 2), ("det3s2", 2, 2), ("state3", 2, 2), ("seq", 2, 2), ("custom3", 2, 2),
             ("noisy3", 2, 2), ("noisy2", 2, 3), ("mseed3", 2, 2), ("files3", 2, 2), ("det3", 3, 2), ("noisy3", 3, 2),
             ("atomic4", 4, 0), ("atomic4", 2, 0), ("atomicn3", 3, 0), ("atomicf3", 3, 0), ("det3", 1, 0),
             ("noisy3", 1, 0), ("files2x3", 2, 0), ("files3x2", 3, 0), ("files2x3", 6, 0), ("rtimes3", 2, 2),
-            ("rtimes3n", 3, 2)]
+            ("rtimes3n", 3, 2), ("collide", 2, 0), ("collide", 3, 0), ("collideS", 2, 0)]
 
 
 def shards(tier, seed):
@@ -350,7 +361,7 @@ def shards(tier, seed):
         nsplit = 1 if bound == 0 else (6 if tier == "quick" else 14)
         for i in range(nsplit):
             out.append({"part": "sched", "h": hname, "k": k, "bound": bound, "i": i, "of": nsplit, "seed": seed})
-    for hname in ("det3", "state3", "seq", "custom3", "noisy3", "mseed3", "rtimes3n"):
+    for hname in ("det3", "state3", "seq", "custom3", "noisy3", "mseed3", "rtimes3n", "collide"):
         out.append({"part": "free", "h": hname, "seed": seed, "tier": tier})
     out.append({"part": "calib", "seed": seed, "tier": tier})
     for name in BFE:
